@@ -1,5 +1,7 @@
 """In-memory view of a fact file: functions, CFG helpers, printing, def-use."""
 import collections
+import json
+import os
 import re
 import sys
 
@@ -104,6 +106,9 @@ def const_val(o):
 
 def is_local(o, l=None):
     return o["k"] in ("copy", "move") and not o["pl"]["p"] and (l is None or o["pl"]["l"] == l)
+
+
+_REF_PARAMS = None
 
 
 class Fn:
@@ -320,6 +325,8 @@ class Program:
         self.by_path = {}
         for f in self.fns:
             self.by_path.setdefault(f.path, []).append(f)
+        self.param_renames = []
+        self._canon_params()
         self.adts = {a["path"]: a for a in d["adts"]}
         self.consts = {}
         for c in d["consts"]:
@@ -328,6 +335,31 @@ class Program:
         self.sigs = {}
         for s in d["sigs"]:
             self.sigs.setdefault(s["path"], s)
+
+    def _canon_params(self):
+        """A parameter is identified by its position (that is how callers pass it); its name is a label.  The rules
+        refer to parameters by the names they have on the reviewed tree (sa/ref_params.json: path -> [names]); when a
+        body's parameter at the same position carries another name, the reviewed name is used and the renaming is
+        recorded in the evidence.  A changed parameter count leaves the names alone (the rules then fail closed)."""
+        global _REF_PARAMS
+        if _REF_PARAMS is None:
+            try:
+                with open(os.path.join(os.path.dirname(os.path.abspath(__file__)), "ref_params.json")) as fh:
+                    _REF_PARAMS = json.load(fh)
+            except OSError:
+                _REF_PARAMS = {}
+        for path, fs in self.by_path.items():
+            ref = _REF_PARAMS.get(path)
+            if not ref or len(ref) != len(fs):
+                continue
+            for f, names in zip(fs, ref):
+                if len(names) != f.argc:
+                    continue
+                for k, want in enumerate(names, start=1):
+                    have = f.locals[k]["name"]
+                    if want and have and have != want:
+                        f.locals[k]["name"] = want
+                        self.param_renames.append("%s: parameter %d `%s` is read as `%s`" % (path, k, have, want))
 
     def fn(self, suffix, optional=False):
         """unique function whose path ends with `suffix` (at a `::` boundary)"""
